@@ -15,6 +15,16 @@ type modLoc struct {
 	comp string
 	sort Sort
 	idx  *Term // nil: whole component
+	cond *Term // nil: unconditional
+}
+
+// exclTerm: r is not this location (or the location's condition does not hold)
+func (l modLoc) excl(r *Term) *Term {
+	e := Not(Eq(r, l.idx))
+	if l.cond != nil {
+		return Or(Not(l.cond), e)
+	}
+	return e
 }
 
 // evalModifies evaluates the modifies clauses of a contract in the given environment (pre-state).
@@ -28,78 +38,92 @@ func (ex *Exec) evalModifies(clauses []*Clause, se *SpecEnv) (locs []modLoc, all
 			if part == "*" {
 				return nil, true
 			}
-			if strings.HasPrefix(part, "comp ") {
-				// comp T.f : a whole field component
-				tf := strings.TrimSpace(part[5:])
-				i := strings.LastIndex(tf, ".")
-				if i < 0 {
-					panic(specErr{"bad comp in modifies: " + part})
+			var cond *Term
+			if i := strings.Index(part, " if "); i >= 0 {
+				ce, err := ParseSpecExpr(part[i+4:])
+				if err != nil {
+					panic(specErr{err.Error()})
 				}
-				t := ex.eng.parseType(se.pkg, tf[:i])
-				if t == nil {
-					panic(specErr{"unknown type in modifies: " + part})
-				}
-				su, ok := t.Underlying().(*types.Struct)
-				if !ok {
-					panic(specErr{"comp of non-struct in modifies: " + part})
-				}
-				found := false
-				for fi := 0; fi < su.NumFields(); fi++ {
-					if su.Field(fi).Name() == tf[i+1:] {
-						cn, cs, _ := ex.fieldComp(t, fi)
-						locs = append(locs, modLoc{cn, cs, nil})
-						found = true
-					}
-				}
-				if !found {
-					panic(specErr{"unknown field in modifies: " + part})
-				}
-				continue
+				cond = se.evalBool(ce)
+				part = strings.TrimSpace(part[:i])
 			}
-			if strings.HasPrefix(part, "global ") {
-				name := strings.TrimSpace(part[7:])
-				obj, _ := se.pkg.Scope().Lookup(name).(*types.Var)
-				if obj == nil {
-					panic(specErr{"unknown global in modifies: " + part})
-				}
-				g := ex.eng.globalOf(obj)
-				locs = append(locs, modLoc{globalComp(g), ex.vc.SortOf(obj.Type()), nil})
-				continue
+			ls := ex.evalModPart(part, se)
+			for i := range ls {
+				ls[i].cond = cond
 			}
-			contents := false
-			if strings.HasSuffix(part, "[*]") {
-				contents = true
-				part = strings.TrimSpace(part[:len(part)-3])
-			}
-			e, err := ParseSpecExpr(part)
-			if err != nil {
-				panic(specErr{err.Error()})
-			}
-			if contents {
-				v, t := se.evalTerm(e)
-				switch u := types.Unalias(t).Underlying().(type) {
-				case *types.Map:
-					d, vn, l, ks, vs := ex.mapComps(u)
-					locs = append(locs, modLoc{d, ArraySort(SInt, ArraySort(ks, SBool)), v},
-						modLoc{vn, ArraySort(SInt, ArraySort(ks, vs)), v}, modLoc{l, ArraySort(SInt, ex.vc.IntSort()), v})
-				case *types.Slice:
-					cn, cs := ex.sliceComp(u.Elem())
-					locs = append(locs, modLoc{cn, cs, ex.vc.SlicePtr(v)})
-				default:
-					panic(specErr{"[*] on non-map/slice in modifies: " + part})
-				}
-				continue
-			}
-			// location expression: *p, x.f
-			a := ex.evalLocation(se, e)
-			if len(a.idx) == 0 {
-				locs = append(locs, modLoc{a.comp, a.compSort, nil})
-			} else {
-				locs = append(locs, modLoc{a.comp, a.compSort, a.idx[0]})
-			}
+			locs = append(locs, ls...)
 		}
 	}
 	return locs, false
+}
+
+func (ex *Exec) evalModPart(part string, se *SpecEnv) (locs []modLoc) {
+	if strings.HasPrefix(part, "comp ") {
+		// comp T.f : a whole field component
+		tf := strings.TrimSpace(part[5:])
+		i := strings.LastIndex(tf, ".")
+		if i < 0 {
+			panic(specErr{"bad comp in modifies: " + part})
+		}
+		t := ex.eng.parseType(se.pkg, tf[:i])
+		if t == nil {
+			panic(specErr{"unknown type in modifies: " + part})
+		}
+		su, ok := t.Underlying().(*types.Struct)
+		if !ok {
+			panic(specErr{"comp of non-struct in modifies: " + part})
+		}
+		found := false
+		for fi := 0; fi < su.NumFields(); fi++ {
+			if su.Field(fi).Name() == tf[i+1:] {
+				cn, cs, _ := ex.fieldComp(t, fi)
+				locs = append(locs, modLoc{comp: cn, sort: cs})
+				found = true
+			}
+		}
+		if !found {
+			panic(specErr{"unknown field in modifies: " + part})
+		}
+		return locs
+	}
+	if strings.HasPrefix(part, "global ") {
+		name := strings.TrimSpace(part[7:])
+		obj, _ := se.pkg.Scope().Lookup(name).(*types.Var)
+		if obj == nil {
+			panic(specErr{"unknown global in modifies: " + part})
+		}
+		g := ex.eng.globalOf(obj)
+		return []modLoc{{comp: globalComp(g), sort: ex.vc.SortOf(obj.Type())}}
+	}
+	contents := false
+	if strings.HasSuffix(part, "[*]") {
+		contents = true
+		part = strings.TrimSpace(part[:len(part)-3])
+	}
+	e, err := ParseSpecExpr(part)
+	if err != nil {
+		panic(specErr{err.Error()})
+	}
+	if contents {
+		v, t := se.evalTerm(e)
+		switch u := types.Unalias(t).Underlying().(type) {
+		case *types.Map:
+			d, vn, l, ks, vs := ex.mapComps(u)
+			return []modLoc{{comp: d, sort: ArraySort(SInt, ArraySort(ks, SBool)), idx: v},
+				{comp: vn, sort: ArraySort(SInt, ArraySort(ks, vs)), idx: v}, {comp: l, sort: ArraySort(SInt, ex.vc.IntSort()), idx: v}}
+		case *types.Slice:
+			cn, cs := ex.sliceComp(u.Elem())
+			return []modLoc{{comp: cn, sort: cs, idx: ex.vc.SlicePtr(v)}}
+		default:
+			panic(specErr{"[*] on non-map/slice in modifies: " + part})
+		}
+	}
+	// location expression: *p, x.f
+	a := ex.evalLocation(se, e)
+	if len(a.idx) == 0 {
+		return []modLoc{{comp: a.comp, sort: a.compSort}}
+	}
+	return []modLoc{{comp: a.comp, sort: a.compSort, idx: a.idx[0]}}
 }
 
 func (ex *Exec) evalLocation(se *SpecEnv, e SExpr) *Addr {
@@ -202,7 +226,7 @@ func (ex *Exec) havocLocs(st *State, reach *Term, locs []modLoc) {
 		ls := byComp[c]
 		whole := false
 		for _, l := range ls {
-			if l.idx == nil {
+			if l.idx == nil && l.cond == nil {
 				whole = true
 			}
 		}
@@ -212,9 +236,23 @@ func (ex *Exec) havocLocs(st *State, reach *Term, locs []modLoc) {
 			continue
 		}
 		for _, l := range ls {
-			cur = Store(cur, l.idx, ex.vc.FreshConst(c+".h", l.sort.ElemSort()))
+			if l.idx == nil {
+				cur = Ite(l.cond, ex.vc.FreshConst(c, l.sort), cur)
+				continue
+			}
+			nv := ex.vc.FreshConst(c+".h", l.sort.ElemSort())
+			if l.cond != nil {
+				cur = Ite(l.cond, Store(cur, l.idx, nv), cur)
+			} else {
+				cur = Store(cur, l.idx, nv)
+			}
 		}
 		ex.setComp(st, c, cur)
+	}
+	for _, c := range order {
+		if strings.HasPrefix(c, "MV.") || strings.HasPrefix(c, "MD.") {
+			ex.mapWFGlobal(st, "MV."+c[3:])
+		}
 	}
 }
 
@@ -256,6 +294,9 @@ func (ex *Exec) havocMods(fr *frame, st *State, reach *Term, ms *modSet, entry *
 		old := ex.comp(st, name, s)
 		nv := ex.vc.FreshConst(name, s)
 		st.heap[name] = nv
+		if strings.HasPrefix(name, "MV.") || strings.HasPrefix(name, "MD.") {
+			defer ex.mapWFGlobal(st, "MV."+name[3:])
+		}
 		if !ms.nonfresh[name] && s.IsArray() && s.IndexSort() == SInt && !strings.HasPrefix(name, "IT.") {
 			// written only at objects allocated inside the loop: everything that existed at loop entry is unchanged
 			r := Sym("r!q", SInt)
@@ -270,9 +311,13 @@ func (ex *Exec) havocMods(fr *frame, st *State, reach *Term, ms *modSet, entry *
 			for _, l := range locs {
 				if l.comp == name {
 					if l.idx == nil {
-						whole = true
+						if l.cond == nil {
+							whole = true
+						} else {
+							excl = append(excl, Not(l.cond))
+						}
 					} else {
-						excl = append(excl, Not(Eq(r, l.idx)))
+						excl = append(excl, l.excl(r))
 					}
 				}
 			}
@@ -306,9 +351,13 @@ func (ex *Exec) loopFrameObligations(fr *frame, lc *LoopContract, ms *modSet, en
 		for _, l := range locs {
 			if l.comp == name {
 				if l.idx == nil {
-					whole = true
+					if l.cond == nil {
+						whole = true
+					} else {
+						excl = append(excl, Not(l.cond))
+					}
 				} else {
-					excl = append(excl, Not(Eq(r, l.idx)))
+					excl = append(excl, l.excl(r))
 				}
 			}
 		}
@@ -414,6 +463,9 @@ func (ex *Exec) applyContract(fr *frame, st *State, reach *Term, fn *ssa.Functio
 				oldc := ex.comp(st, name, s)
 				nv := ex.vc.FreshConst(name, s)
 				st.heap[name] = nv
+				if strings.HasPrefix(name, "MV.") || strings.HasPrefix(name, "MD.") {
+					defer ex.mapWFGlobal(st, "MV."+name[3:])
+				}
 				if !ms.nonfresh[name] && s.IsArray() && s.IndexSort() == SInt {
 					r := Sym("r!q", SInt)
 					ex.vc.Assume(reach, Forall([]*Term{r}, Implies(Select(ex.alive(pre), r), Eq(Select(nv, r), Select(oldc, r)))))
@@ -680,9 +732,13 @@ func (ex *Exec) frameObligations(fr *frame, fc *FuncContract, entry, final *Stat
 		for _, l := range locs {
 			if l.comp == name {
 				if l.idx == nil {
-					whole = true
+					if l.cond == nil {
+						whole = true
+					} else {
+						excl = append(excl, Not(l.cond))
+					}
 				} else {
-					excl = append(excl, Not(Eq(r, l.idx)))
+					excl = append(excl, l.excl(r))
 				}
 			}
 		}
